@@ -90,6 +90,16 @@ func c06Alphabet(level int) []dbx.Txn {
 				opUpdate("T", ts[i], rm.Row{"a": str("w"), "n": rm.SetOf(rm.I(9)), "c": rm.SetOf()}))
 		}
 	}
+	// two new rows sharing an indexed value while the committed holder of that value is deleted in the same transaction
+	// (the deletion makes the conflict with the committed row ignorable; the conflict between the two new rows is not)
+	dupA := c06Row{"x", "s", "", 7}
+	for i := 0; i < len(ts); i++ {
+		j, k := (i+1)%len(ts), (i+2)%len(ts)
+		add(fmt.Sprintf("ins d%d v0 + ins d%d (a=x again) + del d%d", j+1, k+1, i+1), opInsert("T", ts[j], vals[0].row()), opInsert("T", ts[k], dupA.row()), opDelete("T", ts[i]))
+		add(fmt.Sprintf("del d%d + ins d%d v0 + ins d%d (a=x again)", i+1, j+1, k+1), opDelete("T", ts[i]), opInsert("T", ts[j], vals[0].row()), opInsert("T", ts[k], dupA.row()))
+		add(fmt.Sprintf("ins d%d v0 + del d%d + ins d%d (a=x again)", j+1, i+1, k+1), opInsert("T", ts[j], vals[0].row()), opDelete("T", ts[i]), opInsert("T", ts[k], dupA.row()))
+		add(fmt.Sprintf("ins d%d v0 + d%d.a:=x + del d%d", j+1, k+1, i+1), opInsert("T", ts[j], vals[0].row()), opUpdate("T", ts[k], rm.Row{"a": str("x")}), opDelete("T", ts[i]))
+	}
 	add("all T n+=1", rm.Op{Op: "mutate", Table: "T", Muts: []rm.Mut{{Col: "n", Mutator: "+=", Val: rm.SetOf(rm.I(1))}}})
 	add("all T n-=1", rm.Op{Op: "mutate", Table: "T", Muts: []rm.Mut{{Col: "n", Mutator: "-=", Val: rm.SetOf(rm.I(1))}}})
 	add("all T a:=x", rm.Op{Op: "update", Table: "T", Row: rm.Row{"a": str("x")}})
